@@ -48,7 +48,8 @@ RULE = (
     "context, scoped block, call block; chains of 3-8 distinct filters and tests; trans blocks with 3-8 variables; filters "
     "applied to literals, which the optimizer evaluates so that their result text lands in the source: urlize with rel / "
     "nofollow / target / extra_schemes on texts with URLs, xmlattr / tojson / dictsort / groupby / unique / items / string / "
-    "list / sort / pprint ... on literal dicts and lists); "
+    "list / sort / pprint ... on literal dicts and lists; `name in / not in` a literal list or tuple of 2-6 distinct strings in "
+    "if tests, outputs, loop filters, assignments and conditional expressions); "
     "G-expr expression trees in output / if / set positions; and srcgen grammar sources when that generator exists -- "
     "each compiled twice in 7 fresh processes (PYTHONHASHSEED 0,1,2,3,4,5,12345) under a drawn environment "
     "(extensions i18n/do/loopcontrols, sync/async, autoescape, old/new style gettext). Non-trivial = the template "
@@ -173,26 +174,60 @@ _HEAD_RE = re.compile(r"(?:^|,)\s*([^\W\d]\w*)")
 
 
 EXCLUDED_LABEL = "excluded_folded_address_text"
-_ADDR_RE = re.compile(r" at 0x[0-9a-fA-F]+")
+_ADDR_RE = re.compile(r"(?i) at 0x[0-9a-f]+")
 
 
 def _folds_address_text(ast, env, nodes):
-    """Known finding (known_findings.d/C30.json): a constant subexpression that evaluates to an object with Python's
-    default repr (the iterator of ``[1]|reverse`` / ``|batch`` / ``|select``, the bound method ``'a'.upper``) and is
-    turned into *text* at compile time (``~``, ``|string``, ``|e``, ``|join``, ``|format`` ...) is folded into the
-    generated source, memory address included.  True when some expression of the template is a compile-time constant
-    whose value is a string holding such an address; these templates are excluded from the generated search.
-    (An output expression whose constant value is the object itself is F50, fixed, and is *not* excluded.)"""
+    """Known finding F50b (known_findings.d/C30.json): a constant subexpression that evaluates to an object with
+    Python's default repr (the iterator of ``[1]|reverse`` / ``|batch`` / ``|select`` / ``|unique``, the bound method
+    ``'a'.upper``) and is turned into *text* at compile time (``~``, ``|string``, ``|e``, ``|join``, ``|format``,
+    ``|upper`` ...) is folded into the generated source, memory address included.  True when
+      * some expression of the template is a compile-time constant *string*, and one of its direct operands is a
+        compile-time constant that is not text and whose repr carries an address (the text may be mangled afterwards
+        by ``|upper`` / ``|title`` / ``|reverse`` ..., so the operand is inspected, not only the result), or
+      * some compile-time constant is itself a string holding an address;
+    these templates are excluded from the generated search.  (An output / assignment whose constant value is the
+    object itself is F50, fixed, and is *not* excluded.)"""
     eval_ctx = nodes.EvalContext(env, None)
-    for node in ast.find_all(nodes.Expr):
-        if isinstance(node, (nodes.Const, nodes.TemplateData, nodes.Name, nodes.Literal)):
-            continue
+    memo = {}
+
+    def const_of(node):
+        k = id(node)
+        if k not in memo:
+            try:
+                memo[k] = (True, node.as_const(eval_ctx))
+            except Exception:  # noqa: BLE001 - not a compile-time constant (Impossible) or not evaluable: never folded
+                memo[k] = (False, None)
+        return memo[k]
+
+    def operands(node):
+        for child in node.iter_child_nodes():
+            if isinstance(child, nodes.Expr):
+                yield child
+            else:  # Keyword / Pair / Operand helpers
+                yield from operands(child)
+
+    def unstable(v):
+        if isinstance(v, str):
+            return False
         try:
-            v = node.as_const(eval_ctx)
-        except Exception:  # noqa: BLE001 - not a compile-time constant (Impossible) or not evaluable: never folded
-            continue
-        if isinstance(v, str) and _ADDR_RE.search(v):
+            return _ADDR_RE.search(repr(v)) is not None
+        except Exception:  # noqa: BLE001
             return True
+
+    for node in ast.find_all(nodes.Expr):
+        if isinstance(node, (nodes.Const, nodes.TemplateData, nodes.Name)):
+            continue
+        ok, v = const_of(node)
+        if not ok:
+            continue
+        if isinstance(v, str):
+            if _ADDR_RE.search(v):
+                return True
+            for c in operands(node):
+                okc, vc = const_of(c)
+                if okc and unstable(vc):
+                    return True
     return False
 
 
@@ -254,6 +289,11 @@ def classify(case):
             labels.add("filter_on_literal")
             if n.name == "urlize" and any(kw.key in ("rel", "nofollow") for kw in n.kwargs):
                 labels.add("urlize_rel_on_literal")
+    for n in ast.find_all(nodes.Operand):
+        if n.op in ("in", "notin") and isinstance(n.expr, (nodes.List, nodes.Tuple)) and len(n.expr.items) >= 2 \
+                and all(isinstance(x, nodes.Const) and isinstance(x.value, str) for x in n.expr.items):
+            labels.add("in_literal_strings")
+            break
     if any(isinstance(n.target, nodes.Tuple) for n in ast.find_all((nodes.Assign, nodes.For))):
         labels.add("tuple_unpacking")
     if next(ast.find_all((nodes.Import, nodes.FromImport)), None) is not None:
@@ -683,6 +723,33 @@ class _Dense:
                        "string|filesizeformat", "string|forceescape", "string|trim", "count", "tojson|safe", "default('d')"))
         return "%s|%s" % (self.pick((self.lit_dict(), self.lit_list())), f)
 
+    def member(self, ns):
+        """``name in ('a', 'b', ...)`` / ``not in [...]`` with 2-6 distinct string constants and a non-constant left
+        operand, in if tests, outputs, loop filters, assignments, conditional expressions and filter arguments."""
+        out = []
+        for _ in range(self.i(1, 3)):
+            ws = self.draw(st.lists(st.sampled_from(L.MEMBER_WORDS), min_size=2, max_size=6, unique=True))
+            seq = ", ".join("'%s'" % w for w in ws)
+            seq = self.pick(("(%s)", "[%s]", "(%s,)", "[%s, ]")) % seq
+            left = self.pick((self.pick(ns), "%s|lower" % self.pick(ns), "%s.k" % self.pick(ns), "loop_v", "%s ~ ''" % self.pick(ns)))
+            e = "%s %s %s" % (left, self.pick(("in", "not in")), seq)
+            k = self.i(0, 6)
+            if k == 0:
+                out.append("{%% if %s %%}y{%% elif %s in %s %%}z{%% endif %%}" % (e, self.pick(ns), seq))
+            elif k == 1:
+                out.append("{{ %s }}" % e)
+            elif k == 2:
+                out.append("{%% for loop_v in %s if %s %%}{{ loop_v }}{%% endfor %%}" % (self.pick(ns), e))
+            elif k == 3:
+                out.append("{%% set %s = %s %%}" % (self.pick(ns), e))
+            elif k == 4:
+                out.append("{{ 'y' if %s else %s }}" % (e, self.pick(ns)))
+            elif k == 5:
+                out.append("{{ %s|select('in', %s)|list }}{{ %s|default(%s) }}" % (self.pick(ns), seq, self.pick(ns), e))
+            else:
+                out.append("{%% if %s and %s == 1 or not (%s) %%}w{%% endif %%}" % (e, self.pick(ns), e))
+        return "".join(out)
+
     def folded(self, ns):
         out = []
         for _ in range(self.i(1, 4)):
@@ -719,9 +786,11 @@ def dense_sources(draw):
     parts = []
     need = []
     for _ in range(g.i(1, 3)):
-        k = g.pick(("frame", "frame", "frame", "chains", "trans", "folded", "folded"))
+        k = g.pick(("frame", "frame", "frame", "chains", "trans", "folded", "folded", "member"))
         if k == "frame":
             parts.append(g.frame(ns))
+        elif k == "member":
+            parts.append(g.member(ns))
         elif k == "folded":
             parts.append(g.folded(ns))
         elif k == "chains":
@@ -834,7 +903,7 @@ def run_shard(spec, ctx):
 FLOORS = {
     "stores_3plus_in_frame": 0.15, "stores_6plus_in_frame": 0.02, "filters_tests_3plus": 0.08, "trans_free_3plus": 0.02,
     "tuple_unpacking": 0.08, "imports": 0.08, "macro_special_params": 0.05, "scoped_block": 0.03, "branch_stores_2plus": 0.03,
-    "filter_on_literal": 0.05, "urlize_rel_on_literal": 0.005, "env_async": 0.08, "env_i18n_newstyle": 0.05, "env_i18n_oldstyle": 0.05, "compiles": 0.7,
+    "filter_on_literal": 0.05, "urlize_rel_on_literal": 0.005, "in_literal_strings": 0.02, "env_async": 0.08, "env_i18n_newstyle": 0.05, "env_i18n_oldstyle": 0.05, "compiles": 0.7,
 }
 
 
